@@ -194,17 +194,35 @@ def parseKey (c : RCfg) (s : String) : Option (BitVec c.w × Int) := do
   let hi : Int := if c.signed then (2 ^ (c.w - 1) : Nat) - 1 else (2 ^ c.w : Nat) - 1
   if lo ≤ k ∧ k ≤ hi then some (BitVec.ofInt c.w k, k) else none
 
+/-- repeated top() + pop() -/
+def drainR {c : RCfg} (h : RH c) : Nat → List (RVal c.w) → Option (RH c × List (RVal c.w))
+  | 0, acc => some (h, acc.reverse)
+  | fuel + 1, acc =>
+    if h.size = 0 then some (h, acc.reverse) else
+    match h.top with
+    | none => none
+    | some (h1, v) =>
+      match h1.pop with
+      | none => none
+      | some (h2, _) => drainR h2 fuel (v :: acc)
+
 def stepRadix (s : St) (c : RCfg) (h : RH c) (fr : Option Int) (np : Nat) (ts : List String) : St × String :=
   let fin (h' : RH c) (fr' : Option Int) (np' : Nat) (ret : String) : St × String :=
     ({ s with kind := .radix c h' fr' np' }, s!"{ret} ; {dumpRadix h'}")
   let below (k : Int) : Bool := match fr with | some f => decide (k < f) | none => false
   match ts with
   | [op, ks] =>
-    if op = "push" ∨ op = "emplace" ∨ op = "getb" then
+    if op = "push" ∨ op = "emplace" ∨ op = "getb" ∨ op = "pushb" ∨ op = "emplaceb" then
       match parseKey c ks with
       | some (k, kv) =>
         if below kv then (s, "bad-op")
         else if op = "getb" then fin h fr np (toString (h.getBucketKey k))
+        else if op = "pushb" ∨ op = "emplaceb" then
+          -- the hint overloads: bucket index from get_bucket / get_bucket_key, then push_to_bucket
+          let idx := h.getBucketKey k
+          match h.pushToBucket idx (k, np) with
+          | some h' => fin h' fr (np + 1) (toString idx)
+          | none => (s, ub)
         else
           match h.push (k, np) with
           | some (h', idx) => fin h' fr (np + 1) (toString idx)
@@ -233,6 +251,12 @@ def stepRadix (s : St) (c : RCfg) (h : RH c) (fr : Option Int) (np : Nat) (ts : 
     match h.peakTopKey with
     | some k => fin h fr np (showKey c k)
     | none => (s, ub)
+  | ["drain"] =>
+    match drainR h h.size [] with
+    | some (h', out) =>
+      let f' := match out.getLast? with | some v => some (keyVal c v.1) | none => fr
+      fin h' f' np (if out.isEmpty then "-" else ",".intercalate (out.map (showVal c)))
+    | none => (s, ub)
   | ["size"] => fin h fr np (toString h.size)
   | ["empty"] => fin h fr np (if h.size = 0 then "1" else "0")
   | ["clear"] => fin h.clear none np "ok"
@@ -249,6 +273,15 @@ def configure (s : St) (ts : List String) : St × String :=
   | ["cfg", "dary", a, r] =>
     match a.toNat? with
     | some d => if hd : 0 < d ∧ d ≤ 8 then ({ s with rev := r = "1", kind := .dary d hd.1 #[] }, "ok") else (s, "bad-op")
+    | none => (s, "bad-op")
+  | ["cfg", "dary", a, r, kt] =>
+    -- the key type (u32 / move-sensitive struct / std::string) does not change the model
+    match a.toNat? with
+    | some d =>
+      if hd : 0 < d ∧ d ≤ 8 then
+        if kt = "u32" ∨ kt = "mk" ∨ kt = "str" then ({ s with rev := r = "1", kind := .dary d hd.1 #[] }, "ok")
+        else (s, "bad-op")
+      else (s, "bad-op")
     | none => (s, "bad-op")
   | ["cfg", "addr", a, r, kt] =>
     match a.toNat? with
